@@ -264,7 +264,10 @@ def hang_violations(res, pid):
     if oc == "complete" or (oc in ("deadlock", "livelock") and not root_alive(res)):
         pend = [r["fid"] for r in res.obs.futures.values()
                 if r.get("submitted") and fut_state(r)[0] in ("pending", "running")]
-        if pend:
+        # a daemon thread of the root (the queue feeder) cut by the interpreter's exit in the middle of an
+        # operation may have been about to resolve a future: nobody can observe that future any more
+        cut = [c for c in res.kernel.cut_tasks if c[0] == 100 and c[1] in ("feeder", "manager")]
+        if pend and not cut:
             sig = "%s/unresolved-at-exit/%s" % (pid, mgr_state(res))
             out.append(V(pid, sig, "futures %r never reached a terminal state" % (pend[:6],)))
     return out
